@@ -56,12 +56,22 @@ def operandTag (j : Json) : List String :=
     | .ok _ => ["operand:format-U"]
     | .error _ => ["operand:lazy"]
 
-def parseFiberIn (dflt : Int) (j : Json) : Except String FiberIn := do
+/-- `"win": [lo, hi]`: the intersection is walked over that window only -/
+def parseFiberIn (dflt : Int) (lf : Bool) (j : Json) : Except String FiberIn := do
   let oi ← asInts (← field j "oi")
   let pre ← asInts (← field j "pre")
   let a ← presentedCoords dflt (← field j "a")
   let b ← presentedCoords dflt (← field j "b")
-  pure { oi, pre, a, b }
+  match j.getObjVal? "win" with
+  | .ok w =>
+    match (← asInts w) with
+    | [_, hi] =>
+      if lf then pure { oi, pre, a := windowCutLeader hi a, b }
+      else
+        let c := windowCut hi a b
+        pure { oi, pre, a := c.1, b := c.2 }
+    | _ => throw "win: expected [lo, hi]"
+  | .error _ => pure { oi, pre, a, b }
 
 /-- `null`/"ERR" = the call raised -/
 def optTotal (j : Json) (k : String) : Option Int :=
@@ -126,6 +136,7 @@ def variantTags (j : Json) : List String :=
   (match fArr j "groups" with
    | .ok gs => gs.flatMap (fun g => match asList g with
        | .ok fl => fl.flatMap (fun f =>
+           (match f.getObjVal? "win" with | .ok _ => ["windowed-walk"] | _ => []) ++
            (match f.getObjVal? "a" with | .ok a => operandTag a | _ => []) ++
            (match f.getObjVal? "b" with | .ok b => operandTag b | _ => []))
        | _ => [])
@@ -134,7 +145,7 @@ def variantTags (j : Json) : List String :=
 def handleAnd (j : Json) : Except String Verdict := do
   let n ← fNat j "n"
   let dflt := fIntD j "dflt" 0
-  let groups ← (← fArr j "groups").mapM (fun g => do (← asList g).mapM (parseFiberIn dflt))
+  let groups ← (← fArr j "groups").mapM (fun g => do (← asList g).mapM (parseFiberIn dflt false))
   let fs := groups.flatten
   if !(fs.all (FiberIn.shapeOk n)) || n == 0 || !(groups.all ascPre) then
     return { agree := true, spec := true, tags := ["OUT_OF_MODEL"] }
@@ -180,7 +191,7 @@ where
 def handleLf (j : Json) : Except String Verdict := do
   let n ← fNat j "n"
   let dflt := fIntD j "dflt" 0
-  let groups ← (← fArr j "groups").mapM (fun g => do (← asList g).mapM (parseFiberIn dflt))
+  let groups ← (← fArr j "groups").mapM (fun g => do (← asList g).mapM (parseFiberIn dflt true))
   let fs := groups.flatten
   if !(fs.all (FiberIn.shapeOk n)) || n == 0 then
     return { agree := true, spec := true, tags := ["OUT_OF_MODEL"] }
